@@ -149,9 +149,9 @@ def main(run):
     rows.sort(key=lambda x: json.dumps(x, sort_keys=True))
     if q:
         # quick tier: every chain of <= 1 construct with every raising form; of the two-construct chains, every
-        # pair of constructs with a seeded third of the raising forms
+        # a seeded tenth (every pair of constructs occurs about three times)
         deep = [x for x in rows if len(x["chain"]) == 2]
-        rows = [x for x in rows if len(x["chain"]) < 2] + rng.sample(deep, len(deep) // 3)
+        rows = [x for x in rows if len(x["chain"]) < 2] + rng.sample(deep, len(deep) // 10)
     if len(rows) > 120000:
         short = [x for x in rows if len(x["chain"]) <= 2]
         rows = short + rng.sample([x for x in rows if len(x["chain"]) > 2], 120000 - len(short))
